@@ -383,7 +383,7 @@ func (w *World) enabled() []core.WCmd {
 	}
 	if anyLog && w.nextItem < len(w.items) {
 		for _, in := range w.insts {
-			if in.log == nil || in.dead || (in.state != stRunning && in.state != stStopped) {
+			if in.log == nil || in.dead || (in.state != stRunning && in.state != stStopped) || w.cacheParked(in) {
 				continue
 			}
 			wt := 40
@@ -504,7 +504,7 @@ func (w *World) exec(c core.Cmd) bool {
 		return true
 	case "submit":
 		in := w.inst(c.I)
-		if in == nil || in.log == nil || in.dead || (in.state != stRunning && in.state != stStopped) {
+		if in == nil || in.log == nil || in.dead || (in.state != stRunning && in.state != stStopped) || w.cacheParked(in) {
 			return false
 		}
 		if int(c.N) >= len(w.items) || c.N < 0 {
@@ -858,4 +858,16 @@ func (w *World) startCreate() {
 		}
 		w.note("create %d -> %v", inc, err != nil)
 	}()
+}
+
+// cacheParked: a submitter of this instance is parked inside its cache lookup
+// (only possible when the lookup runs outside poolMu). It may hold a lock we do
+// not know about, so no other submitter of the instance is started meanwhile.
+func (w *World) cacheParked(in *Instance) bool {
+	for _, op := range w.sim.Parked() {
+		if op.Inst == in.idx && op.Inc == in.inc && op.Kind == "cache" {
+			return true
+		}
+	}
+	return false
 }
